@@ -43,10 +43,14 @@ CLAUSES = [
 ]
 RULE = ("lists of 1-3 integer-tick well-formed sequences (<=6 notes, one or three channels, velocities 1..127, all 15 keys, signatures at "
         "arbitrary ticks — also several of a kind on one tick: every track starting with the same / its own time signature at tick 0 —, "
-        "control and program changes (value 0 included) between waits and notes, zero-length notes, leading rests); real file round trip "
+        "control and program changes (value 0 included) between waits and notes, zero-length notes (often next to a note of their pitch), leading rests, "
+        "time signatures at the limits of the MIDI encoding (255/4, 4/128) and beyond it (6/6, 5/6, 3/3, 300/4: saving must refuse)); real file round trip "
         "through mido in a temp dir by sequences_save/sequences_load, Sequence.save, Composition.save and Composition.from_midi_file; "
         "non-trivial = at least two sequences or a signature event")
 ASSUMPTIONS = ["mido's writer/reader is assumed to carry (type, delta, fields) unchanged",
+               "DOMAIN (audit round 4, A4b): a time signature with a denominator that is no power of two or a numerator outside 0..255 has no encoding in a MIDI "
+               "file (FF 58: numerator byte, denominator EXPONENT byte); for sequences holding one the round trip is not defined and the oracle judges instead "
+               "that saving refuses with ValueError before the target file is touched (w_c12_sig_6_6.json replays to `no violation`)",
                "models: SCoda.toMido, SCoda.convert (Model/Midi.lean), tied by correspondence on the same inputs"]
 SCRATCH = None
 
@@ -89,6 +93,35 @@ def o_save_load(inp):
         if wf_violations(tr) or any(on > off for (_, _, on, off, _) in notes_of(tr)) \
                 or any(m[TY] == ON and not (1 <= (m[VEL] or 0) <= 127) for m in r):
             return [("~skip:outside-domain", "")]
+    unrep = [(m[NUM], m[DEN]) for r in rels for m in r if m[TY] == TIMESIG and not H.midi_representable_sig(m[NUM], m[DEN])]
+    if unrep:
+        # DOMAIN NOTE (audit round 4, A4b; not a finding): a time signature whose denominator is no power of two (6/6, 5/6, 3/3) or whose numerator
+        # does not fit one byte (300/4) has no encoding in a MIDI file — "loading back returns the same music" cannot hold for it whatever the
+        # library does, and there is nothing to approximate it by.  What the library can do is REFUSE, and that is what is judged: saving raises
+        # ValueError (mido's, naming the field) before anything is written — a file already at that path keeps its content.  Writing a file
+        # after all, another exception, or touching the target are reported.  (The library accepts such signatures everywhere else — Bar, the
+        # bar splitter, the tokeniser for n/6 = 8n/6 eighths —, so they are legal content; they just cannot be saved.)
+        route = inp.get("route") or "sequences_save"
+        if inp.get("resave") is not None or route not in ("sequences_save", "Sequence.save") or (route == "Sequence.save" and len(rels) != 1):
+            return [("~skip:outside-domain", "")]
+        fd, path = tempfile.mkstemp(suffix=".mid", dir=SCRATCH)
+        os.write(fd, b"what was here before")
+        os.close(fd)
+        try:
+            seqs = [P.seq_of_rel(r) for r in rels]
+            try:
+                seqs[0].save(path) if route == "Sequence.save" else Sequence.sequences_save(seqs, path)
+                return [("unrepresentable-signature", f"time signature {unrep[0][0]}/{unrep[0][1]} has no MIDI encoding, yet saving succeeded (route {route})")]
+            except ValueError as e:
+                with open(path, "rb") as fh:
+                    if fh.read() != b"what was here before":
+                        return [("unrepresentable-signature", f"saving refused the time signature {unrep[0][0]}/{unrep[0][1]} ({e}) but had already written to the target (route {route})")]
+                return [("~domain:time-signature-without-MIDI-encoding(save refuses, target untouched)", "")]
+            except Exception as e:
+                return [("unrepresentable-signature", f"time signature {unrep[0][0]}/{unrep[0][1]}: saving raised {type(e).__name__}: {e}, not ValueError (route {route})")]
+        finally:
+            if os.path.exists(path):
+                os.unlink(path)
     seqs = [P.seq_of_rel(r) for r in rels]
     if inp.get("resave") is not None:
         # the same Sequence objects were saved once before and then changed through public operations: the earlier save and the
@@ -247,6 +280,9 @@ def failing_sequence(f):
 
 D17B_EXAMPLE = {"rels": [[pm(ON, 0, None, note=60, vel=64), pm(OFF, 0, None, note=60), pm(WAIT, 0, 10), pm(ON, 0, None, note=60, vel=64),
                           pm(WAIT, 0, 10), pm(OFF, 0, None, note=60), pm(WAIT, 0, 4)]]}
+# a complete note BEFORE the zero-length note of its pitch: the orphaned note-off must not touch it (audit round 4, b14); the note comes back
+D17B_AFTER_EXAMPLE = {"rels": [[pm(ON, 0, None, note=60, vel=64), pm(WAIT, 0, 10), pm(OFF, 0, None, note=60), pm(WAIT, 0, 5), pm(ON, 0, None, note=60, vel=90),
+                                pm(OFF, 0, None, note=60), pm(WAIT, 0, 4)]]}
 # D21, touching notes: it is the order in which the sequence LISTS the two events of the shared tick that decides, not the channels
 D21_TOUCH_EXAMPLE = {"rels": [[pm(ON, 1, None, note=60, vel=50), pm(WAIT, 0, 10), pm(ON, 0, None, note=60, vel=70), pm(OFF, 1, None, note=60),
                                pm(WAIT, 0, 10), pm(OFF, 0, None, note=60)]]}
@@ -261,7 +297,11 @@ def setup(ctx):
 
     def explain(f):
         """pitch -> finding that explains why the notes of that pitch came back different in the FAILING sequence (None: nothing does).
-        D17b: the sequence holds a zero-length note of that pitch (the channel is not in the file, so the pitch is the key).
+        D17b (audit round 4, B5: the OUTCOME, not the mere presence of such a note): the sequence holds a zero-length note of that pitch (the
+        channel is not in the file, so the pitch is the key) AND the notes loaded for the pitch are exactly what the mechanism gives
+        (h3midi_util.merged_notes_model on the sequence's events of that pitch in LISTED order, channels forgotten: per-track normalise, canonical
+        order — the note-off of the zero-length note now before its note-on —, normalise: the orphan note-off is dropped, or closes a note of
+        the pitch that is sounding there; the note-on left open swallows every later note of the pitch and is removed at the end).
         D21: the pitch has two notes on different channels that overlap or touch, and what was loaded for that pitch is exactly the
         fusion the finding describes (`fused_without_channels` of the saved list), no zero-length note involved."""
         if f["clause"] != "notes" or f["input"].get("resave") is not None or str(f["input"].get("route")).startswith("Composition"):
@@ -283,7 +323,9 @@ def setup(ctx):
                 continue
             only_p = [m for m in r if m[TY] == WAIT or (m[TY] in (ON, OFF) and m[NOTE] == p)]
             if p in zero:
-                out[p] = "D17b"
+                evs = [(t, m[TY], 0, p, m[VEL]) for t, m in tr if m[TY] in (ON, OFF) and m[NOTE] == p]
+                model = sorted((p_, on, off - on, v) for (_, p_, on, off, v) in H.notes_of_events(H.merged_notes_model([evs], normalise_each=True)))
+                out[p] = "D17b" if lp == model else None
             elif cross_channel_overlap([only_p]) and breaks_without_channels([only_p]) and lp == [x for x in fused if x[0] == p]:
                 out[p] = "D21"
             else:
@@ -305,8 +347,14 @@ def generate(ctx):
     rng = ctx.rng
     ctx.check("save_load", D21_EXAMPLE)         # the recorded instance of the known finding
     ctx.check("save_load", D17B_EXAMPLE)        # zero-length note followed by a real note of the same pitch
+    ctx.check("save_load", D17B_AFTER_EXAMPLE)  # a real note followed by a zero-length note of the same pitch: only the zero-length note is lost
     ctx.check("save_load", D21_TOUCH_EXAMPLE)   # D21, touching notes, note-on listed before the note-off of the shared tick: fused
     ctx.check("save_load", D21_TOUCH_FINE)      # the same notes with the note-off listed first: come back intact (must NOT fail)
+    for sig in ((6, 6), (5, 6), (3, 3), (300, 4), (255, 4), (4, 128)):      # audit round 4, A4b: the first four cannot be saved (domain note), the last two can
+        ctx.count("signature:%s" % ("without-MIDI-encoding" if not H.midi_representable_sig(*sig) else "at-the-limits-of-the-encoding"))
+        for route in (None, "Sequence.save"):
+            ctx.check("save_load", {"rels": [[pm(TIMESIG, 0, None, num=sig[0], den=sig[1]), pm(ON, 0, None, note=60, vel=64), pm(WAIT, 0, 24), pm(OFF, 0, None, note=60)]],
+                                    **({"route": route} if route else {})})
     for i in range(ctx.n(120, 2500)):
         k = rng.choice([1, 2, 3])
         rels = []
@@ -339,6 +387,10 @@ def generate(ctx):
                 used.add((kind, t))
                 if kind == TIMESIG:
                     n_, d_ = G.any_sig(rng)
+                    if rng.random() < 0.06:
+                        # signatures no MIDI file can hold (audit round 4, A4b), and the largest ones it can
+                        n_, d_ = rng.choice([(6, 6), (5, 6), (3, 3), (300, 4), (256, 8), (7, 12), (255, 4), (4, 64), (1, 1)])
+                        ctx.count("signature:%s" % ("without-MIDI-encoding" if not H.midi_representable_sig(n_, d_) else "at-the-limits-of-the-encoding"))
                     extras.append(pm(TIMESIG, 0, t, num=n_, den=d_))
                 else:
                     extras.append(pm(KEYSIG, 0, t, key=rng.randrange(15)))
@@ -370,10 +422,17 @@ def generate(ctx):
                 else:
                     extras.append(pm(PC, ch, t, prog=rng.choice([0, 5, 127])))
                     ctx.count("program-change")
-            if rng.random() < 0.06:
+            if rng.random() < 0.12:
                 # a zero-length note (D17b's class), often of a pitch that has other notes
                 zp = rng.choice([n[1] for n in notes] + [61]) if notes else 61
                 zt = rng.choice([n[2] + n[3] for n in notes] + [n[2] for n in notes] + [rng.randint(0, 150)]) if notes else 0
+                if notes and rng.random() < 0.6:
+                    # next to a note of ITS pitch: on its end or shortly after it (a complete note precedes the orphaned note-off), on its start
+                    # or shortly before it (that note is the next one of the key)
+                    n0 = rng.choice(notes)
+                    zp = n0[1]
+                    zt = rng.choice([n0[2] + n0[3], n0[2] + n0[3] + rng.randint(1, 20), n0[2], max(0, n0[2] - rng.randint(1, 20))])
+                    ctx.count("zero-length-note-next-to-a-note-of-its-pitch")
                 if not any(x[1] == zp and x[2] < zt < x[2] + x[3] for x in notes):
                     notes = notes + [(rng.choice(sorted({n[0] for n in notes}) or [0]), zp, zt, 0, 64)]
                     ctx.count("zero-length-note-saved(D17b class)")
@@ -417,6 +476,12 @@ def generate(ctx):
                        for _ in range(rng.randint(1, 2))] for _ in rels]
             ctx.count("saved-before-and-changed-since")
             ctx.check("save_load", {"rels": rels, "resave": resave})
+        if any(m[TY] == TIMESIG and not H.midi_representable_sig(m[NUM], m[DEN]) for r in rels for m in r):
+            # outside the domain of the save-side models (they have no notion of an event mido refuses to build: audit round 4, C4 — reported,
+            # the models are not this agent's): no correspondence request for these cases
+            ctx.count("correspondence-skipped:signature-without-MIDI-encoding")
+            ctx.sample({"rels": [r[:6] for r in rels]})
+            continue
         for r in rels:
             ctx.corr("toMido", P.op_toMido(r))
             ctx.corr("encodeMido", P.op_encodeMido(r))
